@@ -437,6 +437,17 @@ _t(
     "three functions in one generation feeding a reduction (schedules)",
 )
 _t(
+    "TG",
+    [
+        FSpec("f", ["a", "c"], ["y"], "a[i] -> y[i]"),
+        FSpec("g", ["y"], ["z"], "y[i] -> z[i]"),
+        FSpec("h", ["y", "w"], ["x"], "y[i] -> x[i]"),
+    ],
+    lambda n, v: {"a": _lst(v, 0, n[0]), "c": v[6], "w": v[7]},
+    1,
+    "element-wise chain with a fork; in C11 the MapSpecs are not written by hand but generated by add_mapspec_axis('a', axis='i')",
+)
+_t(
     "T22",
     [
         FSpec("f", ["a", "c"], ["lo", "mid", "hi"], "a[i] -> lo[i], mid[i], hi[i]"),
